@@ -7,9 +7,11 @@ import (
 	"fmt"
 	"hash/fnv"
 	"os"
+	"runtime"
 	"strconv"
 	"strings"
 	"sync"
+	"time"
 )
 
 const (
@@ -43,8 +45,20 @@ type Line struct {
 }
 
 type Out struct {
-	mu sync.Mutex
-	f  *os.File
+	mu    sync.Mutex
+	f     *os.File
+	timer *time.Timer
+}
+
+// CaseTimeout is the real-time watchdog per case (VERIF_CASE_TIMEOUT seconds, default 150).
+// When it fires the child dumps all goroutines to stderr and exits with status 97; the
+// driver reports the case as inconclusive (or as a violation when the dump shows the stuck
+// state a property forbids) and restarts the child after that case.
+func CaseTimeout() time.Duration {
+	if v, err := strconv.Atoi(os.Getenv("VERIF_CASE_TIMEOUT")); err == nil && v > 0 {
+		return time.Duration(v) * time.Second
+	}
+	return 150 * time.Second
 }
 
 var (
@@ -79,11 +93,31 @@ func (o *Out) write(l Line) {
 	o.f.Write(append(b, '\n'))
 }
 
-func (o *Out) Begin(name string, desc any) { o.write(Line{T: "begin", Case: name, Desc: desc}) }
+func (o *Out) Begin(name string, desc any) {
+	o.write(Line{T: "begin", Case: name, Desc: desc})
+	o.mu.Lock()
+	if o.timer != nil {
+		o.timer.Stop()
+	}
+	// Begin is called outside any synctest bubble, so this is a real-time timer.
+	o.timer = time.AfterFunc(CaseTimeout(), func() {
+		buf := make([]byte, 64<<20)
+		n := runtime.Stack(buf, true)
+		fmt.Fprintf(os.Stderr, "\nVERIF-CASE-WATCHDOG case=%s exceeded %v of real time; goroutine dump follows\n%s\n", name, CaseTimeout(), buf[:n])
+		os.Exit(97)
+	})
+	o.mu.Unlock()
+}
 func (o *Out) Note(format string, a ...any) {
 	o.write(Line{T: "note", Note: fmt.Sprintf(format, a...)})
 }
 func (o *Out) End(l Line) {
+	o.mu.Lock()
+	if o.timer != nil {
+		o.timer.Stop()
+		o.timer = nil
+	}
+	o.mu.Unlock()
 	l.T = "end"
 	if l.Verdict == "" {
 		if len(l.Viol) > 0 {
@@ -136,12 +170,23 @@ func Mine(idx int) bool {
 // Only returns the single case name to run (replay mode), or "".
 func Only() string { return os.Getenv("VERIF_ONLY") }
 
+var resumeAfter = os.Getenv("VERIF_RESUME_AFTER")
+
 // Want reports whether the named case should run in this process.
 func Want(idx int, name string) bool {
 	if o := Only(); o != "" {
 		return o == name
 	}
-	return Mine(idx)
+	if !Mine(idx) {
+		return false
+	}
+	if resumeAfter != "" { // restarted child: skip everything up to and including that case
+		if name == resumeAfter {
+			resumeAfter = ""
+		}
+		return false
+	}
+	return true
 }
 
 // Hash is a short stable hash for signatures/classes.
